@@ -14,6 +14,7 @@ from __future__ import annotations
 import copy
 import random
 import re
+import sys
 from typing import Any
 
 from .. import c06_gen as G
@@ -54,8 +55,9 @@ ASSUMPTIONS = [
     "loop_iteration_limit / local_namespace_limit == 0 is probed separately (kind 'zero')",
     "context depth: nested partial activations and copy depth must stay <= limit + 1 (the engine "
     "compares with '>' against a counter starting at 0); thresholds are located by scanning",
-    "step budget 3e6 function activations per render; RecursionError is judged under the worker's "
-    "recursion limit (>= 3000, the monitor's wrappers add one frame per node render)",
+    "step budget 3e6 function activations per render; termination of cyclic graphs is judged in "
+    "worker processes where the engine's classes are NOT wrapped, under CPython's default recursion "
+    "limit (1000) and context_depth_limit <= 31 (default 30); about 10 harness frames sit below the render",
 ]
 
 STEP_BUDGET = 3_000_000
@@ -98,12 +100,16 @@ class Res:
 
 
 class Runner:
-    def __init__(self, ctx: Ctx):
+    def __init__(self, ctx: Ctx, monitor: bool = True):
         from liquid2 import DictLoader
         from liquid2.exceptions import LiquidError
         from liquid2.shopify import Environment
 
-        MN.install()
+        # monitor=False: the engine's classes are left untouched in this process, so the
+        # Python stack holds exactly the engine's own frames (termination oracle)
+        self.monitor = monitor
+        if monitor:
+            MN.install()
         self.ctx = ctx
         self.DictLoader = DictLoader
         self.Base = Environment
@@ -124,7 +130,8 @@ class Runner:
             self._classes[key] = c
         return c
 
-    def run(self, case: dict[str, Any], limits: dict[str, int | None], mode: str = "sync") -> Res:
+    def run(self, case: dict[str, Any], limits: dict[str, int | None], mode: str = "sync",
+            recursion_limit: int | None = None) -> Res:
         r = Res()
         self.ctx.ev()
         env = self.env_class(limits)(loader=self.DictLoader(case["partials"]))
@@ -134,8 +141,11 @@ class Runner:
             r.status, r.err, r.msg = "parse", type(e).__name__, str(e).split("\n")[0]
             return r
         data = case.get("data") or {}
-        mon = MN.activate(limits)
-        r.mon = mon
+        if self.monitor:
+            r.mon = MN.activate(limits)
+        saved_rl = sys.getrecursionlimit()
+        if recursion_limit is not None:
+            sys.setrecursionlimit(recursion_limit)
         self.sc.reset(STEP_BUDGET)
         try:
             if mode == "async":
@@ -152,6 +162,8 @@ class Runner:
             r.status, r.err, r.msg = "exc", type(e).__name__, str(e)[:100]
         finally:
             r.steps = self.sc.disarm()
+            if recursion_limit is not None:
+                sys.setrecursionlimit(saved_rl)
             MN.deactivate()
         return r
 
@@ -525,7 +537,7 @@ def floors(tier: str) -> dict[str, int]:
 
 
 def run_shard(spec: dict[str, Any], ctx: Ctx) -> None:
-    rn = Runner(ctx)
+    rn = Runner(ctx, monitor=spec["kind"] != "cycle")
     try:
         kind = spec["kind"]
         if kind in G.PROFILES:
@@ -583,39 +595,41 @@ def _shared(rn: Runner, spec: dict[str, Any]) -> None:
 # --------------------------------------------------------------------------- depth / termination
 
 OK_CYCLE_ERRORS = ("ContextDepthError", "TemplateInheritanceError")
+PY_RECURSION_LIMIT = 1000
 
 
-def judge_cycle(rn: Runner, case: dict[str, Any], D: int | None, mode: str) -> list[tuple[str, str, dict[str, Any]]]:
+def judge_cycle(rn: Runner, case: dict[str, Any], D: int | None, mode: str,
+                record: bool = True) -> list[tuple[str, str, dict[str, Any]]]:
+    """Termination of a cyclic template graph.  Run on the untouched engine classes
+    under CPython's default recursion limit (1000)."""
     limits: dict[str, int | None] = {} if D is None else {"depth": D}
-    r = rn.run(case, limits, mode)
+    r = rn.run(case, limits, mode, recursion_limit=PY_RECURSION_LIMIT)
     ctx = rn.ctx
-    label = case.get("cycle", "?")
-    ex = {"limit_kind": "depth-cycle", "limit": D, "mode": mode, "cycle": label}
+    fam = G.cycle_family(case)
+    ex = {"limit_kind": "depth-cycle", "limit": D, "mode": mode, "cycle": case.get("cycle")}
     out: list[tuple[str, str, dict[str, Any]]] = []
-    m = r.mon
     eff = 30 if D is None else D
     if r.status == "err" and r.err in OK_CYCLE_ERRORS:
-        ctx.count("cycles_terminated")
-        ctx.seen("limit_error_classes", r.err)
-        ctx.seen("cycle_kinds", label)
-        ctx.mx("max:cycle_steps", r.steps)
-        ctx.nt(case["root"], sorted(case["partials"].items()), "cycle", D, mode)
+        if record:
+            ctx.count("cycles_terminated")
+            ctx.seen("limit_error_classes", r.err)
+            ctx.seen("cycle_kinds", case.get("cycle"))
+            ctx.mx("max:cycle_steps", r.steps)
+            ctx.nt(case["root"], sorted(case["partials"].items()), "cycle", D, mode)
     elif r.status == "rec":
-        out.append((f"depth:RecursionError@{label}", f"cyclic template graph ({label}) ended with RecursionError under context_depth_limit {eff}", ex))
+        out.append((f"depth:RecursionError@{fam}",
+                    f"cyclic template graph ended with RecursionError (recursion limit {PY_RECURSION_LIMIT}) "
+                    f"under context_depth_limit {eff}", ex))
     elif r.status == "steps":
-        out.append((f"depth:step-budget-exceeded@{label}", f"cyclic template graph ({label}) still running after {STEP_BUDGET} function activations", ex))
+        out.append((f"depth:step-budget-exceeded@{fam}", f"cyclic template graph still running after {STEP_BUDGET} function activations", ex))
     elif r.status == "ok":
-        out.append((f"depth:cycle-rendered-without-error@{label}", f"cyclic template graph ({label}) rendered {r.out!r:.80} without a depth / inheritance error", ex))
+        out.append((f"depth:cycle-rendered-without-error@{fam}", f"cyclic template graph rendered {r.out!r:.80} without a depth / inheritance error", ex))
     elif r.status in ("err", "parse"):
-        ctx.count("cycles_other_liquid_error")
-        ctx.seen("cycle_other_errors", f"{r.err}@{label}")
+        if record:
+            ctx.count("cycles_other_liquid_error")
+            ctx.seen("cycle_other_errors", f"{r.err}@{case.get('cycle')}")
     else:
-        out.append((f"depth:unexpected-outcome:{r.err}@{label}", f"cyclic template graph ended with {r.err} {r.msg}", ex))
-    if m is not None and r.status != "parse":
-        if m.max_partial_depth > eff + 1 or m.max_copy_depth > eff + 1:
-            out.append(("depth:nesting-exceeds-limit",
-                        f"{m.max_partial_depth} nested partial activations / copy depth {m.max_copy_depth} under context_depth_limit {eff}", ex))
-        ctx.mx("max:partial_depth", m.max_partial_depth)
+        out.append((f"depth:unexpected-outcome:{r.err}@{fam}", f"cyclic template graph ended with {r.err} {r.msg}", ex))
     return out
 
 
@@ -624,13 +638,21 @@ def _cycles(rn: Runner, spec: dict[str, Any]) -> None:
     for j in range(spec["per"]):
         rng = random.Random(f"{spec['seed']}:cycle:{spec['i']}:{j}")
         case = G.cycle_case(rng)
-        Ds: list[int | None] = [None, rng.randint(0, 12), rng.choice([29, 30, 31, 45, 60])]
+        Ds: list[int | None] = [None, rng.randint(0, 12), rng.randint(13, 31)]
         found: list[tuple[str, str, dict[str, Any]]] = []
         for D in Ds:
             for mode in ("sync", "async") if (j + (D or 0)) % 2 == 0 else ("sync",):
                 found += judge_cycle(rn, case, D, mode)
+        ctx.count("cycle_cases")
+        if case["max_wraps"] >= 4:
+            ctx.count("cycle_cases_with_deep_wrapping")
+        done: set[str] = set()
         for key, what, ex in found:
-            wit = {"case": case, **ex, "gen": [str(spec["seed"]), "cycle", spec["i"], j]}
+            if key in done:
+                continue
+            done.add(key)
+            wit = {"case": {k: case[k] for k in ("root", "partials", "data", "cycle")}, **ex,
+                   "gen": [str(spec["seed"]), "cycle", spec["i"], j]}
             if key not in ctx.violations:
                 wit = _min_cycle(rn, case, key, ex) or wit
             ctx.violation(key, what, wit)
@@ -639,35 +661,15 @@ def _cycles(rn: Runner, spec: dict[str, Any]) -> None:
 
 
 def _min_cycle(rn: Runner, case: dict[str, Any], key: str, ex: dict[str, Any]) -> dict[str, Any] | None:
-    """Character-level shrinking of every template while the same key is reported."""
-    from ..minimize import ddmin_str
+    def fails(sp: dict[str, Any]) -> bool:
+        c = G.build_cycle(sp)
+        return any(k == key for k, _, _ in judge_cycle(rn, c, ex["limit"], ex["mode"], record=False))
 
-    cur = copy.deepcopy(case)
-
-    def fails(c: dict[str, Any]) -> bool:
-        try:
-            return any(k == key for k, _, _ in judge_cycle(rn, c, ex["limit"], ex["mode"]))
-        except Exception:  # noqa: BLE001
-            return False
-
-    for name in ["root", *cur["partials"]]:
-        def test(s: str, name=name) -> bool:
-            c = copy.deepcopy(cur)
-            if name == "root":
-                c["root"] = s
-            else:
-                c["partials"][name] = s
-            return fails(c)
-
-        src = cur["root"] if name == "root" else cur["partials"][name]
-        small = ddmin_str(src, test, max_calls=60)
-        if name == "root":
-            cur["root"] = small
-        else:
-            cur["partials"][name] = small
-    if not fails(cur):
+    small = G.shrink_cycle(case["spec"], fails)
+    if not fails(small):
         return None
-    return {"case": cur, **ex, "minimised": True}
+    c = G.build_cycle(small)
+    return {"case": {k: c[k] for k in ("root", "partials", "data", "cycle")}, **ex, "minimised": True}
 
 
 def scan_chain(rn: Runner, case: dict[str, Any], mode: str, dmax: int) -> tuple[list[tuple[int, str, str | None]], str | None]:
@@ -679,8 +681,8 @@ def scan_chain(rn: Runner, case: dict[str, Any], mode: str, dmax: int) -> tuple[
         r = rn.run(case, {"depth": D}, mode)
         rows.append((D, r.status if r.status != "err" else r.err, r.out))
         m = r.mon
-        if m is not None and (m.max_partial_depth > D + 1 or m.max_copy_depth > D + 1):
-            rows.append((D, "NESTING", f"{m.max_partial_depth}/{m.max_copy_depth}"))
+        if m is not None and (m.max_extend_depth > D + 1 or m.max_copy_depth > D + 1):
+            rows.append((D, "NESTING", f"{m.max_extend_depth}/{m.max_copy_depth}"))
     return rows, base.out
 
 
@@ -700,7 +702,7 @@ def judge_chain(rn: Runner, case: dict[str, Any], mode: str) -> list[tuple[str, 
     oks = [D for D, st, _ in rows if st == "ok"]
     for D, st, o in rows:
         if st == "NESTING":
-            out.append(("depth:nesting-exceeds-limit", f"nested partial activations / copy depth {o} under context_depth_limit {D}", {**ex, "limit": D}))
+            out.append(("depth:nesting-exceeds-limit", f"nested context extensions / copy depth {o} under context_depth_limit {D}", {**ex, "limit": D}))
         elif st == "ok":
             if o != ref:
                 out.append((differs_key("depth", o or "", ref), f"render under context_depth_limit {D} differs from the default-limit output", {**ex, "limit": D}))
@@ -768,7 +770,7 @@ def _zero(rn: Runner, spec: dict[str, Any]) -> None:
 
 
 def replay(wit: dict[str, Any], ctx: Ctx) -> None:
-    rn = Runner(ctx)
+    rn = Runner(ctx, monitor=wit.get("limit_kind") != "depth-cycle")
     try:
         case = wit["case"]
         kind = wit.get("limit_kind")
@@ -798,7 +800,7 @@ def replay(wit: dict[str, Any], ctx: Ctx) -> None:
                               "ns_over=", r.mon.ns_over, "ns_early=", r.mon.ns_early)
                     found += JUDGES[kind](rn, f, L, mode)
         elif kind == "depth-cycle":
-            r = rn.run(case, {} if L is None else {"depth": L}, mode)
+            r = rn.run(case, {} if L is None else {"depth": L}, mode, recursion_limit=PY_RECURSION_LIMIT)
             print("  outcome:", r.view(), "steps", r.steps)
             found += judge_cycle(rn, case, L, mode)
         elif kind == "depth-chain":
